@@ -154,6 +154,14 @@ Theorem T11_after_run_nothing_served_is_open : forall g,
 Proof. exact after_run. Qed.
 Print Assumptions T11_after_run_nothing_served_is_open.
 
+(* run() closes the listeners before it calls Shutdown (ob_run_prog): once the listener is closed, along
+   every continuation nothing is accepted any more - under run()'s order of calls not even the single late
+   accept that T11_late_accepts_closed_unserved allows for a bare Shutdown happens. *)
+Theorem T11_closed_listener_accepts_nothing : forall ls g g',
+  lopen g = false -> runf g ls = Some g' -> lopen g' = false /\ accepts ls = 0.
+Proof. exact closed_listener_accepts_nothing. Qed.
+Print Assumptions T11_closed_listener_accepts_nothing.
+
 (* The property on observable histories.  p_check states the clauses on a trace: 1 a request whose first
    byte arrived after closing was observed has been forwarded; 2 a connection accepted after closing was
    observed has been served; 3 a response whose round trip ended after closing was observed lacks
